@@ -1,4 +1,8 @@
 """C07 -- resolution never guesses between candidates; id. follows only its predecessor."""
+import itertools
+
+from harness import core
+from harness import coqemit as E
 from harness import resolve_corr as R
 
 LEVEL_TEXT = (
@@ -16,13 +20,63 @@ RULE = R.__dict__.get("RULE", "") or (
 )
 ASSUMPTIONS = [
     "hash_sha256 o json.dumps is injective on the hashed dictionaries",
-    "strip_punct(antecedent) enters the model as a value computed by the implementation (oracle field)",
+    "strip_punct(antecedent) enters the resolver model as a value computed by the implementation (oracle field); "
+    "the function itself is modelled separately (Model/StripPunct.v on the regenerated re.sub chain) and compared "
+    "with eyecite.utils.strip_punct in the strip-punct stream",
     "re.match(r'(?:at )?(\\d+)', pin) is hand-modelled (pin_number); validated by the correspondence stream",
 ]
 
 
+PRE_SP = """From EV Require Import Base.Str Base.Corr Regex.Syntax Model.StripPunct Gen.Unicode Gen.StripPunct.
+Open Scope N_scope.
+Definition sp (s : str) : str := strip_punct U strip_punct_steps s.
+"""
+
+SP_ALPHA = ['"', "'", "`", "(", ")", ".", ",", "?", "-", " ", "a", "\n"]
+SP_WIDE = list("\"'`([{<>}]).,;:@#$%&?!- \t\n\x0b\x1c\x85\xa0aB9_") + ["\u2019", "\u3000", "\u00e9", "\u200b"]
+SP_CORPUS = ["Foo", "Smith,", "Bar.", "Bar.) ", 'Bar."', "O'Brien", "Roe,'' ", "``Doe''", "U.S.", "et al. ", "(Jones)",
+             "x' y", "a...b", "a--b", "Inc.]\n", " .", "a. \n", "a.\n\n", "'tis", "a ''", ". .", "..", "a.)x"]
+
+
+def strip_punct_stream(ctx):
+    """eyecite.utils.strip_punct against the model, on the text alone."""
+    from eyecite.utils import strip_punct
+
+    th = ctx.tier == "thorough"
+    maxlen = 4 if th else 3
+    strings = ["".join(t) for L in range(maxlen + 1) for t in itertools.product(SP_ALPHA, repeat=L)]
+    ctx.exhaustive["strip-punct: strings<=%d over %d punctuation/space/letter characters" % (maxlen, len(SP_ALPHA))] = len(strings)
+    rng = ctx.rng
+    names = ["Foo", "Smith", "O'Brien", "Bar", "Inc.", "Co.", "U.S.", "et al.", "D'Amato", "Fitz-Hugh"]
+    for _ in range(6000 if th else 1200):
+        if rng.random() < 0.5:
+            n = rng.choice([4, 5, 6, 8, 12, 20])
+            strings.append("".join(rng.choice(SP_WIDE) for _ in range(n)))
+        else:
+            parts = []
+            for _ in range(rng.randint(1, 3)):
+                parts.append(rng.choice(["", '"', "``", "(", "[", " ", "'"]) + rng.choice(names)
+                             + rng.choice(["", ",", ".", ".)", '."', "''", "' ", "...", "--", "?", ". ", ".\n", ";"]))
+            strings.append(rng.choice(["", " "]).join(parts))
+    strings = SP_CORPUS + strings
+    cases = []
+    for s in strings:
+        try:
+            out = strip_punct(s)
+        except Exception as e:  # noqa
+            ctx.divergence("strip-punct", f"strip_punct raised {type(e).__name__}", dict(text=s))
+            continue
+        nt = out != s
+        ctx.case("strip-punct", s, nt, dict(text=s, out=out) if nt and len(s) > 4 and len(ctx.samples) < 12 else None)
+        ctx.count("strip_punct changed input" if nt else "strip_punct left input unchanged")
+        cases.append((E.s(s), E.s(out), dict(text=s, impl_output=out)))
+    ctx.streams.append("strip-punct")
+    core.corr_run(ctx, "strip-punct", PRE_SP, "sp", "str_eqb", cases, shard=700)
+
+
 def run(ctx):
     th = ctx.tier == "thorough"
+    strip_punct_stream(ctx)
     R.run_stream(ctx, [("C07", lambda c, g, mk: R.monitor_c07(c, g))],
                  exhaustive_len=3 if not th else 4, n_sampled=1500 if not th else 20000, max_len=9,
                  n_docs=60 if not th else 600)
